@@ -100,3 +100,50 @@ Proof. vm_compute. reflexivity. Qed.
 Definition loop_graph : graph := [(30, 21, 1); (30, 22, 30)]%N.
 Lemma old_index_loops : forall fuel idx, old_index_f fuel loop_graph HEAD 12%N idx = RHang.
 Proof. induction fuel as [|f IH]; intros idx; [reflexivity|]. cbn. apply IH. Qed.
+
+(* F3h (fixed 3075b467): c += c before the repair.  The for loop of __iadd__ pulled its items from graph.items(self.uri),
+   a generator over the very chain the loop body extends: one turn of the
+   generator (up to its next yield, or its end) alternates with one turn of the
+   body.  None = out of fuel. *)
+Fixpoint old_iadd_self_f (fuel : nat) (a : graph * term * N) (lst : option term)
+         (chain : list (option term)) : option ((graph * term * N) * istop) :=
+  match fuel with
+  | O => None
+  | S fu =>
+      match lst with
+      | None => Some (a, IOk)
+      | Some l =>
+          if truthy l then
+            let a1 := match g_value (fst (fst a)) l FIRST with
+                      | Some v => iadd_step a v           (* yield v; loop body *)
+                      | None => a
+                      end in
+            let nxt := g_value (fst (fst a1)) l REST in    (* the generator resumes on the new graph *)
+            if memb (opt_eqb N.eqb) nxt chain then Some (a1, ICycle)
+            else old_iadd_self_f fu a1 nxt (nxt :: chain)
+          else Some (a, IOk)
+      end
+  end.
+
+Definition old_iadd_self (s : st) (head : term) : st * res :=
+  match c_end (gr s) head with
+  | None => (s, RHang)
+  | Some e =>
+      if N.eqb e NIL then (s, RExc ValueError) else
+      match old_iadd_self_f (fuel_of (gr s)) (g_remove (Some e, Some REST, None) (gr s), e, fresh s)
+                        (Some head) [Some head] with
+      | None => (s, RHang)
+      | Some ((g1, e1, f1), IOk) =>
+          ({| gr := if g_has (Some e1, Some FIRST, None) g1 then g_add (e1, REST, NIL) g1 else g1;
+              fresh := f1 |}, RNone)
+      | Some ((g1, e1, f1), _) => ({| gr := g1; fresh := f1 |}, RExc ValueError)
+      end
+  end.
+
+
+(* on the one-element list [1] the old c += c runs out of the model's fuel
+   (on rdflib: it never returned and the graph grew without bound) *)
+Lemma old_iadd_self_hangs :
+  snd (old_iadd_self {| gr := graph_of [1%N]; fresh := 100%N |} HEAD) = RHang /\
+  snd (old_iadd_self {| gr := graph_of [1; 6; 5]%N; fresh := 102%N |} HEAD) = RHang.
+Proof. split; vm_compute; reflexivity. Qed.
